@@ -15,7 +15,12 @@ type Decimal float64
 var _ objecttypes.Value = Decimal(0)
 
 func MapDecimal(lexicalForm string) (Decimal, error) {
-	vFloat64, err := strconv.ParseFloat(xsdutil.WhiteSpaceCollapse(lexicalForm), 64)
+	lexicalForm = xsdutil.WhiteSpaceCollapse(lexicalForm)
+	if !decimalLexicalRE.MatchString(lexicalForm) {
+		return Decimal(0), rdf.ErrLiteralLexicalFormNotValid
+	}
+
+	vFloat64, err := strconv.ParseFloat(lexicalForm, 64)
 	if err != nil {
 		return Decimal(0), fmt.Errorf("%w: %v", rdf.ErrLiteralLexicalFormNotValid, err)
 	}
